@@ -55,6 +55,7 @@ class InitFlow:
         self.undef_uses = []
         self.loopfills = self._loop_fills()
         self.exit_init = {}     # ret block -> state
+        self.exits = []         # (class 'z'|'nz'|'void'|'?', state, source block)
         self._run()
 
     # ------------------------------------------------------------ linear forms
@@ -290,6 +291,12 @@ class InitFlow:
     def check_read(self, st, inst, obj, lo, hi, what):
         if not self.tracked(obj):
             return
+        if hi is None:
+            # callee reads through a variable offset: the whole object must be defined
+            if obj[0][0] == "alloca":
+                hi = lf_const(self.f.insts[obj[0][1]]["alloc_size"])
+            else:
+                return
         ok = self.covers(st.get(obj, ()), lo, hi)
         self.reads.append((inst, obj, lo, hi, ok, what, st.get(obj, ())))
 
@@ -405,6 +412,15 @@ class InitFlow:
                         self.gen(st, obj, lo, hi)
         return st
 
+    def _cls(self, v):
+        if v is None:
+            return "void"
+        if v[0] == "c":
+            return "z" if int(v[1]) == 0 else "nz"
+        if v[0] == "n":
+            return "z"
+        return "?"
+
     # ------------------------------------------------------------ driver
     def _run(self):
         f = self.f
@@ -462,6 +478,17 @@ class InitFlow:
                 self.step(st, i, True)
             if f.term(b)["op"] == "ret":
                 self.exit_init[b] = st
+                t = f.term(b)
+                body = f.bbmap[b]["insts"][:-1]
+                rv = t["ops"][0] if t["ops"] else None
+                if rv is not None and rv[0] == "i" and f.insts[rv[1]]["op"] == "phi" and f.bb_of[rv[1]] == b and all(x["op"] == "phi" for x in body):
+                    phi = f.insts[rv[1]]
+                    for v, pb in zip(phi["ops"], phi["inblocks"]):
+                        e = out_edge.get((pb, b))
+                        if e is not None:
+                            self.exits.append((self._cls(v), e, pb))
+                else:
+                    self.exits.append((self._cls(rv), st, b))
         # undef operands after mem2reg (scalar locals read before assignment)
         for i in f.all_insts():
             for o in i["ops"]:
@@ -469,3 +496,64 @@ class InitFlow:
                     self.undef_uses.append(i)
             if i["op"] == "phi":
                 pass
+
+
+def scalar_uninit(f):
+    """Unoptimised (-O0, no mem2reg) IR: scalar locals whose address never escapes must be stored
+    before they are loaded on every path.  Returns [(load inst, variable name)]."""
+    scal = {}
+    for i in f.all_insts():
+        if i["op"] == "alloca" and not i["alloc_type"].startswith(("[", "%", "<", "{")):
+            scal[i["id"]] = i
+    if not scal:
+        return [], 0
+    uses = f.uses()
+    ok = set()
+    for aid in scal:
+        good = True
+        for u in uses.get(aid, []):
+            ui = f.insts[u]
+            if ui["op"] == "load" and ui["ops"][0] == ["i", aid]:
+                continue
+            if ui["op"] == "store" and ui["ops"][1] == ["i", aid] and ui["ops"][0] != ["i", aid]:
+                continue
+            good = False
+        if good:
+            ok.add(aid)
+    rpo = f.rpo()
+    IN = {b: None for b in rpo}
+    IN[f.entry] = frozenset()
+    changed = True
+    OUT = {}
+    while changed:
+        changed = False
+        for b in rpo:
+            if b != f.entry:
+                ps = [OUT[p] for p in f.preds[b] if p in OUT]
+                if not ps:
+                    continue
+                n = frozenset.intersection(*ps)
+                if IN[b] != n:
+                    IN[b] = n
+                    changed = True
+            if IN[b] is None:
+                continue
+            st = set(IN[b])
+            for i in f.bbmap[b]["insts"]:
+                if i["op"] == "store" and i["ops"][1][0] == "i" and i["ops"][1][1] in ok:
+                    st.add(i["ops"][1][1])
+            st = frozenset(st)
+            if OUT.get(b) != st:
+                OUT[b] = st
+                changed = True
+    bad = []
+    for b in rpo:
+        if IN[b] is None:
+            continue
+        st = set(IN[b])
+        for i in f.bbmap[b]["insts"]:
+            if i["op"] == "store" and i["ops"][1][0] == "i" and i["ops"][1][1] in ok:
+                st.add(i["ops"][1][1])
+            elif i["op"] == "load" and i["ops"][0][0] == "i" and i["ops"][0][1] in ok and i["ops"][0][1] not in st:
+                bad.append((i, scal[i["ops"][0][1]].get("name", "?")))
+    return bad, len(ok)
